@@ -113,6 +113,8 @@ def cfg_env(cfg):
             acts.append("trace_off")
         if tr.get("trace"):
             acts.append("trace")
+        if tr.get("finish"):
+            acts.append("finish")
         if acts:
             tg.append(pat(k) + "@" + ",".join(acts))
         if tr.get("caller"):
@@ -129,6 +131,8 @@ def cfg_env(cfg):
         env["UFTRACE_THRESHOLD"] = cfg["threshold"]
     if cfg.get("max_stack") is not None:
         env["UFTRACE_MAX_STACK"] = cfg["max_stack"]
+    if cfg.get("min_size"):
+        env["UFTRACE_MIN_SIZE"] = cfg["min_size"]          # record -Z N
     return env
 
 
